@@ -136,6 +136,15 @@ class C10(Prop):
                 "NV.C10.handleC_collision_witness",
                 "NV.C10.cutAtOverflow_id",
                 "NV.C10.model_satisfies_spec_int",
+                "NV.C10.stepOp_hb",
+                "NV.C10.runOps_hb",
+                "NV.C10.fireOne_hb",
+                "NV.C10.visit_hb",
+                "NV.C10.sweep_hb",
+                "NV.C10.stepCmd_hb",
+                "NV.C10.runCmds_hb",
+                "NV.C10.handlesFit_of_bound",
+                "NV.C10.model_satisfies_spec_int_bound",
                 "NV.C10.time_left_fits_int"]
     witness_theorems = ["NV.C10.ovf_witness", "NV.C10.C10_int_Full_false", "NV.C10.handleC_overflow_witness",
                         "NV.C10.C10_handles_Full_false"]
@@ -160,7 +169,8 @@ class C10(Prop):
                   "NV.C10.model_satisfies_spec, no hypotheses: the oracle (all clauses, incl. the print_call_out_usage / "
                   "num_call / free-list clause) accepts every history of the model, for all scripts and commands.  C int width: "
                   "time left modelled ((int) cast regenerated); handles: the history with int handles (eventsC, what the model "
-                  "driver prints) is accepted under the decidable side condition handlesFit (NV.C10.model_satisfies_spec_int), "
+                  "driver prints) is accepted for every history that uses fewer than 2^31/N handle serials "
+                  "(NV.C10.model_satisfies_spec_int_bound; NV.C10.handlesFit_of_bound), "
                   "the unconditional statement is refuted by a Lean-checked witness (NV.C10.C10_int_Full_false) that is replayed "
                   "on the real driver through the verif hook verif_call_out_set_unique (open known finding C10-handle-overflow).  Observed only (checked by the LPC callback, no model): call_outs with 4 arguments incl. an object "
                   "that is destructed meanwhile; f_call_out refusing a destructed current_object")
@@ -171,8 +181,8 @@ class C10(Prop):
             "0..200 incl. backlog; the branch histogram of the run is in coverage.histogram; a case is "
             "non-trivial when its trace has >= 2 lines; distinct = distinct canonical implementation trace")
     not_covered = ["the O_LISTENER branch of call_out() (the flag is never set in this driver: dead code)",
-                   "int overflow of the handle after 2^26 call_outs: OPEN known finding C10-handle-overflow (not repaired); the "
-                   "link from `unique < 2^31/N - 1` to the side condition handlesFit is not proved (handleC_exact is per handle)",
+                   "int overflow of the handle after 2^26 call_outs: OPEN known finding C10-handle-overflow (not repaired; the "
+                   "int-faithful statement is proved exactly up to the bound, NV.C10.model_satisfies_spec_int_bound)",
                    "call_out during shutdown, call_out by the master object (no separate path in call_out.c)",
                    "argument vectors: one string argument in the model; 4-argument call_outs (string, object, number) are "
                    "checked by the LPC callback only (observed, no theorem); refcounts of arguments are not observable",
